@@ -163,7 +163,7 @@ func crossBackends(rep *kit.Report, hists [][]kit.Step, cfgs []cfgT) {
 					// that the content comparison below is still meaningful
 					wantAll, _ := ref.FindLatest(ctx, false, 10, amhist.Query{})
 					gotAll, _ := mem.FindLatest(ctx, false, 10, amhist.Query{})
-					if len(gotAll) != len(wantAll) {
+					if len(gotAll) < len(wantAll) {
 						deadline := time.Now().Add(3 * time.Second)
 						for time.Now().Before(deadline) {
 							time.Sleep(20 * time.Millisecond)
@@ -240,6 +240,8 @@ func crossBackends(rep *kit.Report, hists [][]kit.Step, cfgs []cfgT) {
 							kind = "oldest-record-missing"
 						case qname != "all" && !slices.Equal(w, wAll) && slices.Equal(g, gAll):
 							kind = "state-condition-ignored"
+						case strings.HasPrefix(qname, "Activated ") && multiReactivationOnly(strings.Fields(qname)[1], w, g):
+							kind = "multi-reactivation-activated"
 						}
 						bad = append(bad, fmt.Sprintf("%s: FindLatest(%s, limit %d): backend %v, in-memory %v", kind, qname, limit, g, w))
 					}
@@ -300,6 +302,34 @@ func crossBackends(rep *kit.Report, hists [][]kit.Step, cfgs []cfgT) {
 	rep.Note("backend_cases", n)
 }
 
+// multiReactivationOnly: the backend's answer is the in-memory one plus
+// records in which the (Multi) state was re-activated, i.e. active with a tick
+// of 3 or more.
+func multiReactivationOnly(state string, want, got []string) bool {
+	if len(got) <= len(want) {
+		return false
+	}
+	wi := 0
+	for _, r := range got {
+		if wi < len(want) && want[wi] == r {
+			wi++
+			continue
+		}
+		ok := false
+		for _, f := range strings.Fields(strings.Trim(r, "{}")) {
+			if n, t, found := strings.Cut(f, ":"); found && n == state {
+				var tick int
+				fmt.Sscanf(t, "%d", &tick)
+				ok = tick%2 == 1 && tick >= 3
+			}
+		}
+		if !ok {
+			return false
+		}
+	}
+	return wi == len(want)
+}
+
 // syncGuard calls Sync with a real-time guard (a hang is reported, not waited
 // out).
 func syncGuard(mem amhist.MemoryApi) string {
@@ -328,7 +358,7 @@ func idxc(b string) int {
 // longBackends: logs much longer than MaxRecords. The persistent backends
 // collect garbage asynchronously, so the bound checked for them is loose
 // (3x MaxRecords + one batch once the collector is idle); the newest
-// MaxRecords-1 records must be the in-memory ones.
+// MaxRecords records must be the in-memory ones.
 func longBackends(rep *kit.Report) {
 	work := os.Getenv("AMC_WORK")
 	if work == "" {
@@ -387,6 +417,19 @@ func longBackends(rep *kit.Report) {
 			return
 		}
 		defer closeDb()
+		// the log never holds fewer than min(MaxRecords, records so far): looked
+		// at after every flushed batch, a little later too (the collector runs on
+		// its own)
+		minSeen := func(total int) {
+			for k := 0; k < 3; k++ {
+				got, _ := mem.FindLatest(ctx, false, 0, amhist.Query{})
+				if want := min(j.max, total); len(got) < want {
+					bad = append(bad, fmt.Sprintf("over-collected: %d records in the log after %d recorded transitions, MaxRecords %d", len(got), total, j.max))
+					return
+				}
+				time.Sleep(15 * time.Millisecond)
+			}
+		}
 		for i := 0; i < j.n; i++ {
 			for _, m := range []*am.Machine{m1, m2} {
 				if i%2 == 0 {
@@ -394,6 +437,13 @@ func longBackends(rep *kit.Report) {
 				} else {
 					m.Remove1("A", nil)
 				}
+			}
+			if i%2 == 1 && len(bad) == 0 {
+				if e := syncGuard(mem); e != "" {
+					bad = append(bad, e)
+					return
+				}
+				minSeen(i + 1)
 			}
 		}
 		if e := syncGuard(mem); e != "" {
@@ -445,7 +495,7 @@ func longBackends(rep *kit.Report) {
 		if len(got) > bound {
 			bad = append(bad, fmt.Sprintf("unbounded: %d records retained with MaxRecords %d (loose bound %d)", len(got), j.max, bound))
 		}
-		k := min(j.max-1, j.n+4)
+		k := min(j.max, j.n+4)
 		if len(got) < k || !slices.Equal(sums(got[:k]), sums(want[:k])) {
 			bad = append(bad, fmt.Sprintf("newest-differ: newest %d records have time sums %v, in-memory %v", k, sums(got[:min(k, len(got))]), sums(want[:k])))
 		}
